@@ -39,14 +39,27 @@ func runRealChains14(c *Ctx) {
 		v4 := k%2 == 0
 		if v4 {
 			spec.Plugins4 = append([]chainPlug{sid4}, without(genChain(c, c01Pool4, ""))...)
-			if r.Pct(25) {
+			if k < 4 || r.Pct(25) { // the first configurations of each protocol always list server_id twice
 				spec.Plugins4 = append(spec.Plugins4, sid4)
 			}
 		} else {
 			spec.Plugins6 = append([]chainPlug{sid6}, without(genChain(c, c01Pool6, ""))...)
-			if r.Pct(25) {
+			if k < 4 || r.Pct(25) {
 				spec.Plugins6 = append(spec.Plugins6, sid6)
 			}
+		}
+		if k < 4 {
+			// ... and keep the chain between them free of plugins that end it (nbp, file for a listed client)
+			keep := func(ch []chainPlug) []chainPlug {
+				var out []chainPlug
+				for _, p := range ch {
+					if p.Name != "nbp" && p.Name != "file" && p.Name != "ipv6only" && p.Name != "autoconfigure" && p.Name != "range" && p.Name != "prefix" {
+						out = append(out, p)
+					}
+				}
+				return out
+			}
+			spec.Plugins4, spec.Plugins6 = keep(spec.Plugins4), keep(spec.Plugins6)
 		}
 		var held []net.IPNet
 		n := 8 + r.Intn(20)
